@@ -400,8 +400,41 @@ fn random_stdin(t: &mut Tape) -> Vec<u8> {
     v
 }
 
+/// pad a program to 8-40 KiB with comment and `say` lines full of 2-, 3- and 4-byte characters, shifted by 0-3 ASCII
+/// bytes, so that some character straddles every 4 KiB / 8 KiB offset of the file
+fn big_file(t: &mut Tape, tail: &str) -> String {
+    let mut s = String::new();
+    for _ in 0..t.pick(4) {
+        s.push('x');
+    }
+    if !s.is_empty() {
+        s = format!("({})\n", s);
+    }
+    let target = 8200 + t.pick(32_000);
+    let atoms = ["é", "日本", "🎸", "ü", "€", "я"];
+    let mut i = 0usize;
+    while s.len() < target {
+        let a = atoms[(i + t.pick(2)) % atoms.len()];
+        let line: String = std::iter::repeat(a).take(20 + (i * 7) % 40).collect();
+        if i % 3 == 0 {
+            s.push_str(&format!("({})\n", line));
+        } else if i % 3 == 1 {
+            s.push_str(&format!("say \"{}\"\n", line));
+        } else {
+            s.push_str(&format!("put \"{}\" into the {}\n", line, ["ünï", "word", "élan"][i % 3]));
+        }
+        i += 1;
+    }
+    s.push_str(tail);
+    s
+}
+
 fn gen_prog(t: &mut Tape) -> Case {
     let spelling = super::c02::take_spelling(t, 20);
+    if t.chance(1, 25) {
+        let tail = render(&FlowGen::new(t).program(), &spelling, OPTS).text;
+        return Case::Prog { src: big_file(t, &tail), stdin: vec![], origin: "big_file".into() };
+    }
     let which = t.weighted(&[24, 8, 8, 10, 5, 15, 10, 10, 5, 5]);
     let (src, stdin, origin): (String, Vec<u8>, &str) = match which {
         0 => {
@@ -454,6 +487,11 @@ fn usage_cases() -> Vec<Case> {
         v.push(u("no_file_argument", &[sub]));
         v.push(u("extra_argument", &[sub, "{ok}", "{ok}"]));
         v.push(u("extra_argument", &[sub, "{ok}", "extra"]));
+        v.push(u("missing_file_among_several", &[sub, "{missing}", "{ok}"]));
+        v.push(u("missing_file_among_several", &[sub, "{ok}", "{missing}"]));
+        v.push(u("missing_file_among_several", &[sub, "{missing}", "{ok}", "{ok}"]));
+        v.push(u("missing_file_among_several", &[sub, "{dir}", "{ok}"]));
+        v.push(u("missing_file_among_several", &[sub, "{missing}", "{missing}"]));
         v.push(u("unknown_flag", &[sub, "--frobnicate", "{ok}"]));
         v.push(u("unknown_flag", &[sub, "{ok}", "-x"]));
         v.push(u("unknown_flag", &[sub, "-q"]));
@@ -477,7 +515,7 @@ impl Prop for C20 {
     }
     fn rule(&self) -> String {
         "program files from ten sources (say/listen programs with generated input texts; function, array, control-flow and dictionary programs; wild programs that fail at run time after 0..n lines of output, with input incl. invalid UTF-8; \
-         constant-assignment programs with many lint reports; valid programs with a syntax fault injected on some line; repository test programs, verbatim and token-mutated; random grammar programs) rendered with random aliases/case/comments/layout, \
+         constant-assignment programs with many lint reports; valid programs with a syntax fault injected on some line; repository test programs, verbatim and token-mutated; random grammar programs; 4% files padded to 8-40 KiB with multi-byte comment/say lines so that characters straddle every buffer boundary) rendered with random aliases/case/comments/layout, \
          written under four file names (plain, with a blank, non-ASCII, no extension). Each is run through the real binary four times: `exec` with separate stdout/stderr files, `exec` with both streams on ONE append-mode file, `lint`, `parse`; \
          stdout/stderr bytes must equal the library's output, `Runtime error: `/`Parse error: ` + the library's message + newline, the diagnostics rebuilt from the library's Diag values, and `{:#?}` of the library's tree; no status 101 / signal. \
          Plus a fixed list of refused usages x 3 subcommands (missing file, empty path, directory, no argument, extra argument, unknown flag, invalid UTF-8 path, unknown subcommand) and generated ones: exit status must be non-zero and not a crash. \
@@ -496,14 +534,24 @@ impl Prop for C20 {
         400
     }
     fn cases(&self, t: Tier) -> usize {
-        t.pick(8_000, 400_000)
+        t.pick(8_000, 150_000)
     }
     fn generate(&self, t: &mut Tape) -> Case {
         if t.chance(1, 25) {
             // generated refused usages: a random word as subcommand / flag / missing path
             let word: String = (0..1 + t.pick(8)).map(|_| (b'a' + t.pick(26) as u8) as char).collect();
             let sub = *t.choose(&["exec", "lint", "parse"]);
-            return match t.pick(4) {
+            return match t.pick(5) {
+                4 => {
+                    // two or three operands, at least one of them not a readable file
+                    let n = 2 + t.pick(2);
+                    let bad = t.pick(n);
+                    let mut args = vec![sub.to_string()];
+                    for i in 0..n {
+                        args.push(if i == bad { (*t.choose(&["{missing}", "{dir}", "nonexistent.rock"])).to_string() } else { (*t.choose(&["{ok}", "{ok}", "{missing}"])).to_string() });
+                    }
+                    Case::Usage { args, kind: "missing_file_among_several".into() }
+                }
                 0 => Case::Usage { args: vec![sub.into(), format!("{}.rock", word)], kind: "missing_file".into() },
                 1 => Case::Usage { args: vec![format!("{}x", word), "{ok}".into()], kind: "unknown_subcommand".into() },
                 2 => Case::Usage { args: vec![sub.into(), format!("--{}", word), "{ok}".into()], kind: "unknown_flag".into() },
@@ -546,10 +594,10 @@ impl Prop for C20 {
             .iter()
             .map(|s| s.to_string())
             .collect();
-        for k in ["missing_file", "directory_as_file", "no_file_argument", "extra_argument", "unknown_flag", "unknown_subcommand", "invalid_utf8_path", "file_below_a_file"] {
+        for k in ["missing_file_among_several", "missing_file", "directory_as_file", "no_file_argument", "extra_argument", "unknown_flag", "unknown_subcommand", "invalid_utf8_path", "file_below_a_file"] {
             v.push(format!("usage:{}", k));
         }
-        for o in ["io", "functions", "arrays", "flow", "dicts", "wild", "lint", "syntax_fault", "repo_snippet", "grammar"] {
+        for o in ["big_file", "io", "functions", "arrays", "flow", "dicts", "wild", "lint", "syntax_fault", "repo_snippet", "grammar"] {
             v.push(format!("origin:{}", o));
         }
         v
